@@ -2,6 +2,6 @@ SPECIFICATION Spec
 CONSTANTS
   Labels = {"n1","n2","n3","n4"}
   Weights = {1,2}
-  MaxScore = 3
+  MaxScore = 2
 INVARIANT Inv
 PROPERTY RemoveOnlyRemoves AddOnlyInserts
